@@ -105,14 +105,50 @@ def inlinable(fn: T.Any) -> bool:
 def expression_helper(fn: T.Any) -> ast.expr | None:
     if _kind(fn) is None or fn.args.vararg or fn.args.kwarg or fn.args.posonlyargs or isinstance(fn, ast.AsyncFunctionDef):
         return None
+    def simplify(test: ast.expr, a: ast.expr, b: ast.expr, at: ast.AST) -> ast.expr:
+        """`True if t else b` == `t or b`;  `a if t else False` == `t and a`;  `False if t else b` == `not t and b`;  `a if t else True` == `not t or a`."""
+        def const(e: ast.expr) -> T.Any:
+            return e.value if isinstance(e, ast.Constant) and isinstance(e.value, bool) else None
+        ca, cb = const(a), const(b)
+        neg = ast.UnaryOp(op=ast.Not(), operand=test)
+        if ca is True:
+            r: ast.expr = ast.BoolOp(op=ast.Or(), values=[test, b])
+        elif cb is False:
+            r = ast.BoolOp(op=ast.And(), values=[test, a])
+        elif ca is False:
+            r = ast.BoolOp(op=ast.And(), values=[neg, b])
+        elif cb is True:
+            r = ast.BoolOp(op=ast.Or(), values=[neg, a])
+        else:
+            r = ast.IfExp(test=test, body=a, orelse=b)
+        return ast.copy_location(r, at)
+
+    def plain(e: ast.expr) -> bool:
+        """An alias-like right-hand side that may be substituted into the result: attribute chains, names, constants."""
+        while isinstance(e, ast.Attribute):
+            e = e.value
+        return isinstance(e, (ast.Name, ast.Constant))
+
     def as_expr(stmts: list[ast.stmt]) -> ast.expr | None:
+        temps: dict[str, ast.expr] = {}
+        stmts = list(stmts)
+        while len(stmts) > 1 and isinstance(stmts[0], (ast.Assign, ast.AnnAssign)):
+            st = stmts[0]
+            tg = st.targets[0] if isinstance(st, ast.Assign) and len(st.targets) == 1 else getattr(st, "target", None)
+            if not (isinstance(tg, ast.Name) and getattr(st, "value", None) is not None and plain(st.value)):
+                return None
+            temps[tg.id] = _Subst(dict(temps), {}).visit(_clone(st.value))
+            stmts = stmts[1:]
+        e: ast.expr | None = None
         if len(stmts) == 1 and isinstance(stmts[0], ast.Return) and stmts[0].value is not None:
-            return stmts[0].value
-        if len(stmts) == 1 and isinstance(stmts[0], ast.If) and stmts[0].orelse:
+            e = stmts[0].value
+        elif len(stmts) == 1 and isinstance(stmts[0], ast.If) and stmts[0].orelse:
             a, b = as_expr(stmts[0].body), as_expr(stmts[0].orelse)
             if a is not None and b is not None:
-                return ast.copy_location(ast.IfExp(test=stmts[0].test, body=a, orelse=b), stmts[0])
-        return None
+                e = simplify(stmts[0].test, a, b, stmts[0])
+        if e is not None and temps:
+            e = _Subst(dict(temps), {}).visit(_clone(e))
+        return e
 
     e = as_expr(_guard_to_else(_strip_doc(fn.body)))
     if e is not None and not any(isinstance(x, (ast.Await, ast.Yield, ast.YieldFrom, ast.Lambda, ast.NamedExpr)) for x in ast.walk(e)):
@@ -231,7 +267,10 @@ def _returns_to(stmts: list[ast.stmt], form: str, target: T.Any, at: ast.AST) ->
     if isinstance(last, ast.Return):
         val = last.value
         if form == "assign":
-            rep = [ast.copy_location(ast.Assign(targets=[_clone(target)], value=val if val is not None else ast.Constant(value=None)), last)]
+            if isinstance(val, ast.Name) and isinstance(target, ast.Name) and val.id == target.id:
+                rep = []
+            else:
+                rep = [ast.copy_location(ast.Assign(targets=[_clone(target)], value=val if val is not None else ast.Constant(value=None)), last)]
         elif form == "return":
             rep = [ast.copy_location(ast.Return(value=val), last)]
         elif form == "raise":
@@ -272,8 +311,10 @@ def _expand(call: ast.Call, form: str, target: T.Any, helper: T.Any, receiver: a
             tmp = f"{p}__{helper.name.strip('_')}{serial}"
             rename[p] = tmp
             pre.append(ast.copy_location(ast.Assign(targets=[ast.Name(id=tmp, ctx=ast.Store())], value=_clone(a)), call))
+    returned = {r.value.id for r in ast.walk(helper) if isinstance(r, ast.Return) and isinstance(r.value, ast.Name)}
+    same_var = target.id if form == "assign" and isinstance(target, ast.Name) and target.id in returned else None
     for v in assigned:
-        if v not in bound and v in caller_names:
+        if v not in bound and v in caller_names and v != same_var:
             rename[v] = f"{v}__{helper.name.strip('_')}{serial}"
     body = _guard_to_else([_clone(s) for s in _strip_doc(helper.body)])
     sub = _Subst(mapping, rename)
@@ -339,6 +380,33 @@ def inline_new_helpers(tree: ast.Module, known_functions: set[str]) -> list[str]
     new = {k: v for k, v in new.items() if k not in dup and k not in known_names}
     if not new:
         return notes
+    # ---- statement helpers
+    stmts = {k: v for k, v in new.items() if inlinable(v)}
+    for _ in range(3):
+        if not stmts:
+            break
+        done = 0
+        for f in allf:
+            caller_names = {n.id for n in ast.walk(f) if isinstance(n, ast.Name)} | {a.arg for a in f.args.args + f.args.kwonlyargs}
+            for blk in list(_blocks(f)):
+                i = 0
+                while i < len(blk):
+                    c = _call_of(blk[i])
+                    ref = _helper_ref(c[0], stmts) if c else None
+                    if c and ref and stmts[ref[0]] is not f:
+                        helper = stmts[ref[0]]
+                        is_async_call = isinstance(getattr(blk[i], "value", getattr(blk[i], "exc", None)), ast.Await)
+                        if isinstance(helper, ast.AsyncFunctionDef) == is_async_call:
+                            counter[0] += 1
+                            out = _expand(c[0], c[1], c[2], helper, ref[1], counter[0], caller_names)
+                            if out is not None:
+                                blk[i:i + 1] = out
+                                done += 1
+                                i += len(out)
+                                continue
+                    i += 1
+        if not done:
+            break
     # ---- expression helpers
     exprs = {k: expression_helper(v) for k, v in new.items()}
     exprs = {k: v for k, v in exprs.items() if v is not None}
@@ -366,13 +434,79 @@ def inline_new_helpers(tree: ast.Module, known_functions: set[str]) -> list[str]
     for _ in range(3):
         t = ExprInline()
         for f in allf:
-            if f.name in exprs:
-                continue
             t.generic_visit(f)
+        # the stored expressions of helpers that call other helpers are refreshed
+        for k_, v_ in list(exprs.items()):
+            ne = expression_helper(new[k_])
+            if ne is not None:
+                exprs[k_] = ne
         if not t.done:
             break
-    # ---- statement helpers
-    stmts = {k: v for k, v in new.items() if k not in exprs and inlinable(v)}
+    # ---- statement helpers called in FIRST-EVALUATED expression position of a statement: hoist
+    #      `if helper(a) or X:`  ->  `t = <helper body>; if t or X:`   (exact: the call is what the statement evaluates first)
+    def first_evaluated(e: ast.AST) -> list[ast.AST]:
+        """The first sub-expression (in evaluation order) that is not side-effect free, as a one-element list - or [] when a
+        conditional construct makes the order depend on values.  Names, constants and attribute chains on them are skipped."""
+        def pure_leaf(x: ast.AST) -> bool:
+            while isinstance(x, ast.Attribute):
+                x = x.value
+            return isinstance(x, (ast.Name, ast.Constant))
+
+        def walk(x: ast.AST) -> ast.AST | None | bool:
+            """first impure node, None if x is entirely pure, False if undecidable"""
+            if pure_leaf(x):
+                return None
+            if isinstance(x, ast.Await) and isinstance(x.value, ast.Call):
+                inner = walk_call_parts(x.value)
+                return x if inner is None else inner
+            if isinstance(x, ast.Call):
+                inner = walk_call_parts(x)
+                return x if inner is None else inner
+            if isinstance(x, ast.BoolOp):
+                return walk(x.values[0]) if walk(x.values[0]) is not None else False
+            if isinstance(x, ast.IfExp):
+                return walk(x.test) if walk(x.test) is not None else False
+            if isinstance(x, ast.UnaryOp):
+                return walk(x.operand)
+            if isinstance(x, ast.Compare):
+                seq = [x.left] + list(x.comparators)
+            elif isinstance(x, ast.BinOp):
+                seq = [x.left, x.right]
+            elif isinstance(x, (ast.List, ast.Tuple, ast.Set)):
+                seq = list(x.elts)
+            elif isinstance(x, ast.Subscript):
+                seq = [x.value, x.slice]
+            elif isinstance(x, ast.Starred):
+                seq = [x.value]
+            else:
+                return False
+            for y in seq:
+                r = walk(y)
+                if r is not None:
+                    return r
+            return None
+
+        def walk_call_parts(c: ast.Call) -> ast.AST | None | bool:
+            parts: list[ast.AST] = []
+            if not pure_leaf(c.func):
+                parts.append(c.func.value if isinstance(c.func, ast.Attribute) else c.func)
+            parts += list(c.args) + [k.value for k in c.keywords]
+            for y in parts:
+                r = walk(y)
+                if r is not None:
+                    return r
+            return None
+
+        r = walk(e)
+        return [r] if isinstance(r, ast.AST) else []
+
+    def host_expr(st: ast.stmt) -> tuple[ast.AST, str] | None:
+        if isinstance(st, ast.If):
+            return st, "test"
+        if isinstance(st, (ast.Assign, ast.AnnAssign, ast.Return, ast.Expr)) and getattr(st, "value", None) is not None:
+            return st, "value"
+        return None
+
     for _ in range(3):
         if not stmts:
             break
@@ -382,32 +516,59 @@ def inline_new_helpers(tree: ast.Module, known_functions: set[str]) -> list[str]
             for blk in list(_blocks(f)):
                 i = 0
                 while i < len(blk):
-                    c = _call_of(blk[i])
-                    ref = _helper_ref(c[0], stmts) if c else None
-                    if c and ref and stmts[ref[0]] is not f:
-                        helper = stmts[ref[0]]
-                        is_async_call = isinstance(getattr(blk[i], "value", getattr(blk[i], "exc", None)), ast.Await)
-                        if isinstance(helper, ast.AsyncFunctionDef) == is_async_call:
+                    h = host_expr(blk[i])
+                    if h is not None:
+                        holder, field = h
+                        spine = first_evaluated(getattr(holder, field))
+                        hit = None
+                        for e in spine:
+                            c = e.value if isinstance(e, ast.Await) else e
+                            if isinstance(c, ast.Call):
+                                ref = _helper_ref(c, stmts)
+                                if ref and stmts[ref[0]] is not f and isinstance(stmts[ref[0]], ast.AsyncFunctionDef) == isinstance(e, ast.Await) \
+                                        and not (e is getattr(holder, field) and field == "value" and not isinstance(holder, ast.If) and _call_of(blk[i])):
+                                    hit = (e, c, ref)
+                                    break
+                        if hit is not None:
+                            e, c, ref = hit
                             counter[0] += 1
-                            out = _expand(c[0], c[1], c[2], helper, ref[1], counter[0], caller_names)
+                            tmp = f"{ref[0].strip('_')}__v{counter[0]}"
+                            out = _expand(c, "assign", ast.Name(id=tmp, ctx=ast.Store()), stmts[ref[0]], ref[1], counter[0], caller_names)
                             if out is not None:
-                                blk[i:i + 1] = out
+                                new_name = ast.copy_location(ast.Name(id=tmp, ctx=ast.Load()), e)
+
+                                class Rep(ast.NodeTransformer):
+                                    def generic_visit(self, n: ast.AST) -> ast.AST:
+                                        if n is e:
+                                            return new_name
+                                        return super().generic_visit(n)
+                                setattr(holder, field, Rep().visit(getattr(holder, field)))
+                                blk[i:i] = out
                                 done += 1
                                 i += len(out)
-                                continue
                     i += 1
         if not done:
             break
-    # ---- drop helpers that are no longer referenced
-    for name, h in new.items():
-        if name not in exprs and name not in stmts:
-            continue
-        still = any((isinstance(n, ast.Attribute) and n.attr == name) or (isinstance(n, ast.Name) and n.id == name)
-                    for f in allf if f is not h for n in ast.walk(f))
-        body = owner[name].body
-        if not still and h in body:
-            body.remove(h)
-            if not body:
-                body.append(ast.Pass())
-        notes.append(f"new helper {name} inlined into its call sites" + ("" if not still else " (kept: still referenced)"))
+    # ---- drop helpers that are no longer referenced (iteratively: a helper used only by dropped helpers goes too)
+    handled = [n_ for n_ in new if n_ in exprs or n_ in stmts]
+    dropped: set[str] = set()
+    changed = True
+    while changed:
+        changed = False
+        for name in handled:
+            if name in dropped:
+                continue
+            h = new[name]
+            still = any((isinstance(n, ast.Attribute) and n.attr == name) or (isinstance(n, ast.Name) and n.id == name)
+                        for f in allf if f is not h and not (f.name in dropped and new.get(f.name) is f) for n in ast.walk(f))
+            if not still:
+                body = owner[name].body
+                if h in body:
+                    body.remove(h)
+                    if not body:
+                        body.append(ast.Pass())
+                dropped.add(name)
+                changed = True
+    for name in handled:
+        notes.append(f"new helper {name} inlined into its call sites" + ("" if name in dropped else " (kept: still referenced)"))
     return notes
